@@ -259,6 +259,7 @@ func (s *Solver) Check(m *Model) SatResult {
 	})
 	defer wd.Stop()
 	var res SatResult
+	sawError := false
 	for {
 		line := s.readLine()
 		if line == "" {
@@ -267,7 +268,7 @@ func (s *Solver) Check(m *Model) SatResult {
 		if strings.HasPrefix(line, "(error") {
 			// treat as inconclusive; drain nothing else (errors are one line)
 			fmt.Fprintf(os.Stderr, "solver error: %s\n", line)
-			res = Unknown
+			sawError = true
 			// an error may precede the actual answer; keep reading
 			continue
 		}
@@ -283,6 +284,10 @@ func (s *Solver) Check(m *Model) SatResult {
 			continue
 		}
 		break
+	}
+	if sawError {
+		// an assertion may have been dropped: never trust the answer
+		res = Unknown
 	}
 	s.SolverTime += time.Since(t0)
 	s.Queries++
